@@ -393,6 +393,14 @@ class World(object):
             if extra:
                 self.report("C11", "no_offer_after_error", "tasks %r offered after an expression error failed the "
                             "workflow" % (extra,))
+        if tasks and st_before != "failed" and self.status == "failed":
+            ce = self.cleanup_entitled()
+            extra = [(t["id"], t["route"]) for t in tasks if (t["id"], t["route"]) not in ce]
+            if extra:
+                self.report("C11", "no_offer_after_error", "get_next_tasks() failed the workflow and offered %r in the "
+                            "same answer" % (extra,))
+                self.report("C04", "no_offers_after_terminal", "get_next_tasks() failed the workflow and offered %r in "
+                            "the same answer" % (extra,))
         if self.expect_release is not None:
             exp, self.expect_release = self.expect_release, None
             got = sorted(t["id"] for t in tasks)
@@ -890,6 +898,11 @@ class World(object):
                 self.report("C04", "reject_no_effect", "rejected request %r in status %s changed the persisted "
                             "state: %s" % (status, wfb, first_diff(before, self.snap)))
             return False
+        if status != wfb and self.status == wfb and not ((status == "paused" and wfb == "pausing")
+                                                         or (status == "canceled" and wfb == "canceling")):
+            # (the two cases above are the documented "still draining" answers)
+            self.report("C04", "forbidden_rejected", "request %r in status %s had no effect on the status and was not "
+                        "rejected" % (status, wfb))
         if status in ("pausing", "paused"):
             if self.status in ("pausing", "paused"):
                 self.pause_req = True
@@ -1031,7 +1044,17 @@ class World(object):
             return
         prev = self.snap
         self.prev_staged_ids = set((s["id"], s["route"]) for s in prev["state"]["staged"]) if prev else None
+        if self.twin is not None:
+            g0 = (self.c.get_workflow_output(), self.c.get_workflow_status(), len(self.c.errors), len(self.c.log))
         snap = self.c.serialize()
+        if self.twin is not None:
+            # persisting is a query: it must not change what the live conductor reports, and asking
+            # twice gives the same form
+            g1 = (self.c.get_workflow_output(), self.c.get_workflow_status(), len(self.c.errors), len(self.c.log))
+            snap2 = self.c.serialize()
+            if not jeq(g0, g1) or not jeq(snap, snap2):
+                self.report("C05", "persist_is_pure", "after %s: serialize() changed the live conductor: %s"
+                            % (tag, first_diff(list(g0), list(g1)) if not jeq(g0, g1) else first_diff(snap, snap2)))
         self.snap = snap
         if self.o.get("chain"):
             # insertion order is kept on purpose: "identical persisted state" is byte-wise
